@@ -14,3 +14,10 @@ open ShuttleModel.C18
 #print axioms cancel_safe
 #print axioms close_fails_all
 #print axioms wakes_current_poller
+#print axioms waiter_untouched_by_others
+#print axioms no_internal_assertion_fails
+#print axioms try_acquire_zero_panics
+#print axioms wrappers_atomic_granularity
+#print axioms poison_release_wakes_nobody
+#print axioms fair_no_overtaking
+#print axioms request_amount_immutable
